@@ -158,7 +158,7 @@ func c08Run(c *vcore.Ctx) *vcore.Violation {
 		if kind == "unshare" {
 			kind = "ptrace" // the namespace runner's program is the init of its pid namespace: SIGXFSZ with default action is ignored there
 		}
-		script = []string{"dfl", "grow", target, "100000", "exit", "0"}
+		script = []string{"grow", target, "100000", "exit", "3"} // no "dfl": the limit signal must work with the dispositions the runner hands over
 		wantS = runner.StatusOutputLimitExceeded
 	case "cpu_rlimit":
 		if !src.Bool(1, 4, "cpu_costly") {
@@ -167,7 +167,7 @@ func c08Run(c *vcore.Ctx) *vcore.Violation {
 			break
 		}
 		rl = []rlimit.RLimit{{Res: syscall.RLIMIT_CPU, Rlim: syscall.Rlimit{Cur: 1, Max: 2}}}
-		script = []string{"dfl", "burn", "2500", "exit", "0"}
+		script = []string{"burn", "2500", "exit", "0"}
 		wantS = runner.StatusTimeLimitExceeded
 	default:
 		script = []string{"burn", "5", "alloc", "4", "exit", "0"}
